@@ -28,6 +28,7 @@ import (
 	"strconv"
 	"strings"
 	"sync"
+	"syscall"
 	"time"
 
 	"github.com/safing/portbase/api"
@@ -185,15 +186,31 @@ func doPanic(pv string) {
 
 // ------------------------------------------------------------------------------------------ setup
 
+// freePort picks a loopback port no other apiauth driver uses: the port is reserved by an exclusive lock on
+// a scratch file for the lifetime of the process (the api package opens the listener itself, much later).
 func freePort() (int, error) {
-	l, err := net.Listen("tcp", "127.0.0.1:0")
-	if err != nil {
-		return 0, err
+	for try := 0; try < 200; try++ {
+		l, err := net.Listen("tcp", "127.0.0.1:0")
+		if err != nil {
+			return 0, err
+		}
+		p := l.Addr().(*net.TCPAddr).Port
+		_ = l.Close()
+		f, err := os.OpenFile(fmt.Sprintf("%s/verif-apiauth-port-%d.lock", os.TempDir(), p), os.O_CREATE|os.O_RDWR, 0o600)
+		if err != nil {
+			return 0, err
+		}
+		if syscall.Flock(int(f.Fd()), syscall.LOCK_EX|syscall.LOCK_NB) != nil {
+			_ = f.Close()
+			continue
+		}
+		portLock = f // held until the process exits
+		return p, nil
 	}
-	p := l.Addr().(*net.TCPAddr).Port
-	_ = l.Close()
-	return p, nil
+	return 0, errors.New("no free loopback port")
 }
+
+var portLock *os.File
 
 func register() error {
 	for rr := -3; rr <= 5; rr++ {
@@ -326,6 +343,19 @@ func setup(withAuth bool) error {
 			return fmt.Errorf("api server does not listen: %w", err)
 		}
 		time.Sleep(2 * time.Millisecond)
+	}
+	// the server that answers on the port must be the one of this process
+	resetSlot()
+	resp, err := client.Get(baseURL + "/verif/wrap/1/1")
+	if err != nil {
+		return fmt.Errorf("self check: %w", err)
+	}
+	_ = resp.Body.Close()
+	slot.Lock()
+	mine := slot.invoked
+	slot.Unlock()
+	if !mine || resp.StatusCode != http.StatusOK {
+		return fmt.Errorf("self check: port %d is served by another process (status %d)", port, resp.StatusCode)
 	}
 	time.Sleep(20 * time.Millisecond)
 	baseline, _ = apiStatus()
@@ -500,6 +530,22 @@ func (h *hist) setKeys(ents []keyEnt) error {
 	return nil
 }
 
+// intact reports whether the key option still holds what this history configured last: a clean-up
+// microtask of the api package that was scheduled for an older configuration and ran late would have
+// written the older entries back.
+func (h *hist) intact() bool {
+	want := h.sentinel + "?read=user"
+	for _, e := range config.GetAsStringArray(api.CfgAPIKeys, nil)() {
+		if e == want {
+			return true
+		}
+	}
+	if h.infra == "" {
+		h.infra = "the key option was overwritten by a late clean-up of an older configuration"
+	}
+	return false
+}
+
 func (h *hist) setDev(on bool) error {
 	h.avoidEdge()
 	if err := config.SetConfigOption(config.CfgDevModeKey, on); err != nil {
@@ -530,7 +576,8 @@ func garbage(r *rand.Rand) string {
 	for i := range b {
 		switch r.Intn(6) {
 		case 0:
-			b[i] = " \t;=,:/\"'%&?#[]@\\"[r.Intn(18)]
+			const punct = " \t;=,:/\"'%&?#[]@\\"
+			b[i] = punct[r.Intn(len(punct))]
 		case 1:
 			b[i] = byte(0x80 + r.Intn(0x80))
 		default:
@@ -811,7 +858,7 @@ func run(tr *vio.Trace, n int, s *script) error {
 	}
 	h.prevKeys, h.keys = nil, nil
 	for _, st := range s.Steps {
-		if h.infra != "" {
+		if h.infra != "" || !h.intact() {
 			break
 		}
 		switch st.Op {
@@ -880,7 +927,7 @@ func run(tr *vio.Trace, n int, s *script) error {
 			return fmt.Errorf("unknown op %q", st.Op)
 		}
 	}
-	if h.infra != "" {
+	if h.infra != "" || !h.intact() {
 		tr.EmitRaw(map[string]any{"e": "infra", "h": n, "what": h.infra})
 	}
 	return nil
@@ -929,6 +976,9 @@ func main() {
 	_ = modules.Shutdown()
 	if cleanupDir != "" {
 		_ = os.RemoveAll(cleanupDir)
+	}
+	if portLock != nil {
+		_ = os.Remove(portLock.Name())
 	}
 	if err != nil {
 		// exit status 4: the harness failed (2 is the status of a Go process that died of a panic)
